@@ -75,6 +75,13 @@ fn tight_cases(rng: &mut Rng, stack: bool) -> Vec<FileCase> {
             }
         }
     }
+    for (k, _bits) in pc_forms(stack).into_iter().take(3) {
+        // the reference that is out of range sits beyond address xFFFF of an image that does not fit anyway
+        out.push(FileCase { tag: format!("past-top-far-{}", k), ast: vec![orig(0xFFF8), plain("halt").lab("target"), blkw(300), mk_pc(k, rng, "target")], exec: false,
+                            stack_hint: stack, input: vec![] });
+        out.push(FileCase { tag: format!("past-top-near-{}", k), ast: vec![orig(0xFFF8), plain("halt").lab("target"), blkw(100), mk_pc(k, rng, "target")], exec: false,
+                            stack_hint: stack, input: vec![] });
+    }
     for (o, sizes) in [(0xFFF0i64, vec![13i64, 14, 15, 16, 17]), (0xFFFE, vec![0, 1, 2, 3]), (0xFFFF, vec![0, 1, 2]), (0xFDF0, vec![14, 15, 16, 17])] {
         for n in sizes {
             let mut ast = vec![orig(o), plain("halt")];
